@@ -4,6 +4,7 @@ Property theorems over the model `ErdosVerif.Strl` (Model/Strl.lean, Model/StrlS
 -/
 import ErdosVerif.Lemmas.StrlCap
 import ErdosVerif.Lemmas.StrlExact
+import ErdosVerif.Lemmas.StrlMax
 namespace ErdosVerif.C20
 open ErdosVerif.Strl
 
@@ -79,6 +80,21 @@ theorem choose_exact (ctx : Ctx) (name : String) (cs : List Expr) (σ : Assign)
   simp only [chooseLeaves]
   exact list_matches ctx σ cs [] 0 hvars (fun c h => hcons c (List.mem_append_left _ h)) s hs pl hps
 
+
+/-- **Max: at most one child.** In every tree the C++ accepts at construction time (`buildErr`:
+the children of a `Max` are Choose leaves), for every assignment that satisfies the compiled
+model, the solution of every `Max` node of the tree carries at most one placement. -/
+theorem max_at_most_one (ctx : Ctx) (name : String) (cs : List Expr) (σ : Assign)
+    (hb : buildErr (.obj name cs) = none)
+    (hfeas : (compile ctx (.obj name cs)).feasible σ = true) :
+    forallMax (fun path n ch => (populateNode ctx σ path (.max n ch)).placements.length ≤ 1)
+      [] (.obj name cs) := by
+  rw [compile_obj] at hfeas
+  simp only [MipModel.feasible, Bool.and_eq_true, List.all_eq_true] at hfeas
+  obtain ⟨hvars, hcons⟩ := hfeas
+  simp only [forallMax]
+  simp only [buildErr] at hb
+  exact list_max_one ctx σ cs [] 0 hb hvars (fun c h => hcons c (List.mem_append_left _ h))
 
 /-- Non-vacuity of `capacity_sound_partial` and `choose_exact`: an aligned tree (granularity 2, starts 0 and 2), a feasible
 assignment that places `A` and `B` on one slot each of the 2-slot partition `P0` during [2,4). -/
